@@ -63,3 +63,44 @@ def name_induction_variables(fn, roles):
         if d:
             roles[d["d"]] = "$for<%s..%s;%s>" % (d["init"], d["upper"], d["step"])
     return roles
+
+
+def lockstep(cfg, loop):
+    """Element-wise loops walk several iterators together.  For a while/for loop whose body increments iterator locals, returns a
+    list of problems (empty = every iterator is advanced exactly once per iteration on every path through the body).
+    A `continue` that skips one increment, or an increment inside a branch, desynchronises the operands for the rest of the image."""
+    from .tree import key
+
+    body = loop.c[-1]
+    incs = {}
+    nodes = list(body.walk())
+    if loop.k == "ForStmt" and len(loop.c) == 4:
+        nodes += list(loop.c[2].walk())
+    for m in nodes:
+        if m.k in ("UnaryOperator", "CXXOperatorCallExpr") and m.op == "++" and m.c and m.c[0].strip().k == "DeclRefExpr" and m.i in cfg.pos:
+            incs.setdefault(key(m.c[0].strip()), []).append(m)
+    problems = []
+    cond = loop.c[1] if loop.k == "ForStmt" else loop.c[0]
+    cond_ids = {x.i for x in cond.walk()}
+    first = None
+    for m in body.walk():
+        if m.i in cfg.pos:
+            first = m
+            break
+    if first is None or len(incs) < 2:
+        return problems, incs
+    fp = cfg.pos[first.i]
+    start = [(fp[0], fp[1] - 1)]
+    for it, lst in incs.items():
+        ids = {x.i for x in lst}
+        # (a) no way round: from the start of the body back to the loop test without an increment of `it`
+        w = cfg.paths_avoiding(start, lambda x, ids=ids: x.i in ids, target_pred=lambda x: x.i in cond_ids, to_exit=False)
+        if w is not None:
+            problems.append("a path through the loop body does not advance %s" % it)
+        # (b) not twice: from an increment to another increment of the same iterator without passing the loop test
+        for x in lst:
+            w2 = cfg.paths_avoiding([cfg.pos[x.i]], lambda y: y.i in cond_ids, target_pred=lambda y, ids=ids: y.i in ids, to_exit=False)
+            if w2 is not None:
+                problems.append("%s can be advanced twice in one iteration" % it)
+                break
+    return problems, incs
